@@ -258,6 +258,11 @@ def lowerbound_rule(prog: Program, rep, RID: str, cname: str, allow_log2: bool):
             rs = [classify(v, depth + 1) for v in multi[e.id]]
             bad = [r for r in rs if not r[0]]
             return (not bad, "; ".join(r[1] for r in (bad or rs)))
+        if isinstance(e, ast.IfExp):
+            # a candidate chosen by a condition is valid when both alternatives are (`P if values else 0`: 0 is below every bound)
+            rs = [classify(e.body, depth + 1), classify(e.orelse, depth + 1)]
+            bad = [r for r in rs if not r[0]]
+            return (not bad, " / ".join(r[1] for r in (bad or rs)))
         if isinstance(e, ast.Call):
             fn = dotted(e.func) or ""
             if fn == "max" and not e.keywords:
